@@ -38,4 +38,9 @@ def run(tier):
     cr.bounded_check(run_contract_enum, "bidirectional-pairs-box", c12.bidi, bargs,
                      f"{len(bargs)} edge sets of up to 3 edges over 3 entities: a feedback self-loop is its own reverse and is routed directly "
                      "(contract evaluated on the real ConnectionPlanner._find_bidirectional_pairs)")
+    from contracts import c04
+    fargs = c04.feedback_arg_sets()
+    cr.bounded_check(run_contract_enum, "arithmetic-feedback-box", c04.optimize_feedback, fargs,
+                     f"{len(fargs)} cells: 0..2 readers x a reader of another memory x one-step / two-step f x gates present / absent "
+                     "(contract evaluated on the real MemoryBuilder._optimize_to_arithmetic_feedback with real SignalGraph / IR / plan objects)")
     return cr.finish()
